@@ -252,6 +252,24 @@ def case_model(rec, c):
     rec.trace()
 
 
+# the shipped linearisation of the bending energy close to lp_min is accurate to 2.2e-7 (relative, in omega);
+# its root solve for larger lp to 1e-9
+KOYAMA_RTOL = 5e-6
+K4_MIN_STIFFNESS = 50.0
+
+
+def koyama_form(p, k, dev_rel):
+    """Known finding K4: for stiff chains (lp/l >= 50) the shipped closed-form moments (kernel_base: differences of
+    terms ~ (lp/l)^4) lose precision; the noise delta in A^2 enters as exp(delta k^2).  A deviation is attributed to
+    K4 only inside that region and only within expm1(128 eps (lp/l)^4 (k l)^2); anything else is 'other'."""
+    R = p['lp'] / p['l']
+    if R < K4_MIN_STIFFNESS:
+        return None
+    with np.errstate(all='ignore'):
+        bound = np.expm1(128.0 * EPS * R ** 4 * (k * p['l']) ** 2)
+    return 'K4' if (not np.isfinite(bound) or dev_rel <= bound) else 'other'
+
+
 def case_koyama(rec, c):
     p, ks = c['params'], c['kset']
     k = kset(ks)
@@ -305,6 +323,22 @@ def case_koyama(rec, c):
                 rec.fail(dict(c, point={'k': float(k[i])}),
                          'DiscreteKoyama%r: omega(k=%r) = %r, the pair sum (1/N) sum_ij w_|i-j| over all %d sites gives %r' % (p, float(k[i]), g, N, float(want[i])),
                          tags(model, 'value'), repro=repro(model, p, float(k[i])))
+    # independent oracle: docstring kernel with <r^2>, <r^4> from moment propagation of the bond-angle model
+    # (own quadrature and own bending-energy solve; nothing of the class is used)
+    try:
+        indep = ch.koyama_omega(N, p['sigma'], p['l'], p['lp'], k)
+    except Exception as e:
+        raise HarnessError('reference semiflexible moments failed for %r: %s' % (p, e))
+    rec.trans()
+    with np.errstate(all='ignore'):
+        dev = np.abs(got - indep)
+        badi = np.where(np.isfinite(got) & (dev > KOYAMA_RTOL * np.abs(indep)))[0]
+    if len(badi):
+        i = int(badi[np.argmax(dev[badi] / np.abs(indep[badi]))])
+        rec.fail(dict(c, point={'k': float(k[i])}),
+                 'DiscreteKoyama%r: omega(k=%r) = %r; the pair sum with the documented kernel and <r^2>,<r^4> of the bond-angle model (independent quadrature) gives %r (relative deviation %.2e > %.0e)'
+                 % (p, float(k[i]), float(got[i]), float(indep[i]), float(dev[i] / abs(indep[i])), KOYAMA_RTOL),
+                 tags(model, 'moments', koyama_form(p, float(k[i]), float(dev[i] / abs(indep[i])))), repro=repro(model, p, float(k[i])))
     if ks == 'decades':
         lo = float(got[0])
         if math.isfinite(lo) and abs(lo - N) > 1e-5 * N * N:
@@ -316,6 +350,50 @@ def case_koyama(rec, c):
         tol_save = None
         independence(rec, c, 'DiscreteKoyama', p, obj, k, got)
     rec.outcome(core.digest(['DK', p, ks, np.nan_to_num(got[:50])], 7))
+    rec.trace()
+
+
+def case_koyama_lpsweep(rec, c):
+    """Dense ladder of persistence lengths for one geometry: every valid lp must construct, and omega on a
+    small k set must equal the independent pair sum (the window just above the linearisation threshold is
+    where the shipped root solve used to stall: F11)."""
+    sigma, l, N = c['sigma'], c['l'], c['N']
+    lp_min = 4.0 * l ** 3 / (4.0 * l ** 2 - sigma ** 2)
+    k = np.array([1e-3, 0.1, 0.7, 2.0, 5.5, 13.0, 80.0])
+    model = 'DiscreteKoyama'
+    shown = 0
+    nshown = {}
+    for f in c['factors']:
+        p = {'sigma': sigma, 'l': l, 'N': N, 'lp': float(lp_min * f)}
+        rec.state()
+        rec.trans()
+        try:
+            with np.errstate(all='ignore'):
+                obj = make(model, p)
+                got = np.asarray(obj.calculate(k.copy()), dtype=float)
+        except Exception as e:
+            shown += 1
+            if shown <= 2:
+                # lp/l >= 500: the bending energy exceeds ~700 and math.exp overflows inside cos_avg (part of K4: stiff chains)
+                form = 'K4' if (p['lp'] / l >= 500.0 and isinstance(e, ValueError) and 'bending energy' in str(e)) else None
+                rec.fail(dict(c, lp_factor=f), 'DiscreteKoyama%r (lp = %.6g * lp_min, lp/l = %.4g, valid): raised %s: %s' % (p, f, p['lp'] / l, type(e).__name__, str(e)[:100]),
+                         tags(model, 'raises', form), repro=repro(model, p, 1.0))
+            continue
+        indep = ch.koyama_omega(N, sigma, l, p['lp'], k)
+        with np.errstate(all='ignore'):
+            dev = np.abs(got - indep) / np.abs(indep)
+        dev = np.where(np.isfinite(dev), dev, np.inf)
+        for i in np.where(dev > KOYAMA_RTOL)[0]:
+            form = koyama_form(p, float(k[i]), float(dev[i]))
+            key = form or 'none'
+            nshown[key] = nshown.get(key, 0) + 1
+            if nshown[key] <= 2:
+                rec.fail(dict(c, lp_factor=f), 'DiscreteKoyama%r (lp = %.6g * lp_min, lp/l = %.4g): omega(k=%r) = %r, independent pair sum %r'
+                         % (p, f, p['lp'] / l, float(k[i]), float(got[i]), float(indep[i])),
+                         tags(model, 'moments', form), repro=repro(model, p, float(k[i])))
+            else:
+                rec.count('further_koyama_sweep_mismatches_' + key)
+        rec.outcome(core.digest(['DKsweep', p, got], 7))
     rec.trace()
 
 
@@ -372,7 +450,7 @@ def case_invalid(rec, c):
 def replay(rec, case):
     with warnings.catch_warnings():
         warnings.simplefilter('ignore')
-        {'model': case_model, 'koyama': case_koyama, 'koyama_fj': case_koyama_fjlimit, 'invalid': case_invalid}[case['kind']](rec, case)
+        {'model': case_model, 'koyama': case_koyama, 'koyama_fj': case_koyama_fjlimit, 'koyama_lpsweep': case_koyama_lpsweep, 'invalid': case_invalid}[case['kind']](rec, case)
 
 
 def _worker(c):
@@ -407,21 +485,26 @@ def run(rec, tier, seed):
     cases.append({'kind': 'model', 'model': 'NFJCalias', 'params': {'N': 4, 'l': 1.0}, 'kset': 'decades'})
     cases.append({'kind': 'model', 'model': 'NFJC', 'params': {'N': 5, 'l': 1.5}, 'kset': 'decades'})
     kN = [2, 3, 6, 10] if quick else [2, 3, 6, 10, 12, 30, 100]
-    for N, l in itertools.product(kN, [0.8, 1.0, 1.5]):
-        sigma = 1.0
+    LPF = [1, 1.0001, 1.0005, 1.00099, 1.00101, 1.01, 1.0725, 1.5, 3.0, 8.0]
+    for N, (sigma, l) in itertools.product(kN, [(1.0, 0.8), (1.0, 1.0), (1.0, 1.5), (0.8, 1.0), (1.3, 1.0)]):
         lp_min = 4.0 * l ** 3 / (4.0 * l ** 2 - sigma ** 2)
-        lps = [lp_min, lp_min * 1.0005, lp_min * 1.01, lp_min * 1.0725, lp_min * 1.5, lp_min * 3.0]
+        lps = [lp_min * f for f in (LPF if (not quick or l == 1.0) else LPF[::2])]
         for lp in lps:
             for ks in (['decades', 'dk0.1x256'] if quick or N > 12 else ['decades', 'dk0.1x256', 'dr0.1x1024']):
                 cases.append({'kind': 'koyama', 'params': {'sigma': sigma, 'l': l, 'N': N, 'lp': float(lp)}, 'kset': ks})
     cases.append({'kind': 'koyama', 'params': {'sigma': 1.0, 'l': 1.0, 'N': 100, 'lp': 1.43}, 'kset': 'decades'})      # the docstring's example
+    nf = 60 if quick else 400
+    sweep = ([1.0 + 0.003 * (i + 0.5) / nf for i in range(nf)] + [1.003 * (250.0 / 1.003) ** (i / (nf / 2.0)) for i in range(int(nf / 2) + 1)])
+    for sigma, l in ([(1.0, 0.6), (1.0, 0.8), (0.8, 1.0)] if quick else [(1.0, 0.6), (1.0, 0.8), (0.8, 1.0), (1.0, 1.0), (1.3, 1.0), (1.0, 1.5), (1.0, 2.0), (0.5, 1.0), (1.9, 1.0)]):
+        for part in range(4):
+            cases.append({'kind': 'koyama_lpsweep', 'sigma': sigma, 'l': l, 'N': 4, 'factors': [round(f, 9) for f in sweep[part::4]]})
     for N, l in itertools.product([2, 3, 8], [0.8, 1.0, 1.5]):
         cases.append({'kind': 'koyama_fj', 'N': N, 'l': l})
     for sg, l, lp in [(1.0, 0.5, 2.0), (1.0, 0.4, 2.0), (2.0, 1.0, 5.0), (1.0, 1.0, 1.2), (1.0, 1.0, 1.0), (1.0, 0.8, 1.0), (1.0, 1.5, 1.6)]:
         cases.append({'kind': 'invalid', 'params': {'sigma': sg, 'l': l, 'N': 10, 'lp': lp}})
     core.pmap(_worker, cases, rec)
     rec.note('alphabets', {'N_closed_forms': Ns, 'geometry': geo, 'ksets': ksets, 'N_nfjc': nN, 'N_koyama': kN,
-                           'koyama_lp_over_lp_min': [1, 1.0005, 1.01, 1.0725, 1.5, 3.0]})
+                           'koyama_lp_over_lp_min': LPF, 'koyama_sigma_l': [(1.0, 0.8), (1.0, 1.0), (1.0, 1.5), (0.8, 1.0), (1.3, 1.0)]})
     rec.sample(cases[0])
     rec.sample({'kind': 'koyama', 'params': {'sigma': 1.0, 'l': 1.0, 'N': 100, 'lp': 1.43}, 'kset': 'decades'})
     rec.sample({'kind': 'model', 'model': 'NFJC', 'params': {'N': 4, 'l': 1.0}, 'kset': 'dk0.1x256'})
